@@ -51,6 +51,79 @@ class TPDomain(EvDomain):
         return OPF[op]({'<': -1, '=': 0, '>': 1}[v], 0)
 
 
+TAKES = ('erase', 'pop_front', 'pop_back')
+QUEUE_MUT = TAKES + ('push_back', 'emplace_back', 'push_front', 'emplace_front', 'insert', 'emplace', 'clear', 'swap')
+NONNULL = ('m_queue.front', 'm_queue.back', 'param:runnable')
+
+
+class WorkerDomain(TPDomain):
+    """the worker body: shared state is re-read per epoch (see TPAnalysis.worker)"""
+    correlate_unknowns = True
+    loop_unroll = 1
+
+    def volatile(self, path): return path[-1] == 'm_isRunning'
+
+    def epoch(self, st):
+        held = {}; last = None; ph = 0; k = 0
+        for kind, node, payload in st.events:
+            if kind == 'ev':
+                e = payload
+                if e.kind == 'guard': last = e
+                elif e.kind == 'wait-begin' or (e.kind == 'wait' and not isinstance(e.val, Closure)): ph += 1
+                elif e.kind == 'mutex.unlock' and held.get(e.obj, e.obj) == 'm_queueMutex': ph += 1
+                elif e.kind == 'call' and e.obj == 'm_queue' and e.name.split('::')[-1] in QUEUE_MUT: k += 1
+            elif kind == 'decl' and last is not None:
+                held[payload[0]] = last.obj; last = None
+            elif kind == 'autodtor' and held.get(payload[0]) == 'm_queueMutex': ph += 1
+        return ph, k
+
+    def tag_event(self, st, e):
+        return self.epoch(st)
+
+    def sync_closures(self, ex, n, st, fr):
+        out = super().sync_closures(ex, n, st, fr)
+        if out:   # wait(lock, pred): the mutex may have been released; the predicate is evaluated on the state found afterwards
+            self.ev(st, Ev('wait-begin', n), fr)
+        return out
+
+    def field_value(self, path, node):
+        if path[-1] == 'm_isRunning':
+            ph, _ = self.epoch(self.ex._st); return Unknown(f'running@{ph}')
+        return super().field_value(path, node)
+
+    def call_result(self, ex, n, q, base, on, ov, vals, st, fr):
+        if on == 'm_queue':
+            ev_ = st.events.pop() if st.events and st.events[-1][0] == 'ev' and st.events[-1][2].node is n else None
+            ph, k = self.epoch(st)
+            if ev_ is not None: st.events.append(ev_)
+            if base == 'empty': return Unknown(f'qempty@{ph}#{k}')
+            if base in ('size', 'length'): return Lin.sym(f'qsize@{ph}#{k}')
+        return super().call_result(ex, n, q, base, on, ov, vals, st, fr)
+
+    def compare(self, ex, op, l, r, n, st, fr):
+        for a, b, o in ((l, r, op), (r, l, {'<': '>', '>': '<', '<=': '>=', '>=': '<=', '==': '==', '!=': '!='}[op])):
+            if isinstance(a, Sym) and (a.name in NONNULL or a.name.startswith('new:')) and isinstance(b, Lin) and b.is_const() and b.c == 0 and o in ('==', '!='):
+                return o == '!='
+            la = as_lin(a)
+            if la is not None and isinstance(b, Lin) and b.is_const() and b.c == 0 and len(la.t) == 1 and la.c == 0:
+                (sym, coef), = la.t.items()
+                if sym.startswith('qsize@') and coef == 1:
+                    tag = 'qempty@' + sym[6:]
+                    if o in ('>', '!='): return Unknown(('not', tag))
+                    if o in ('==', '<='): return Unknown(tag)
+                    if o == '>=': return True
+                    if o == '<': return False
+        v = super().compare(ex, op, l, r, n, st, fr)
+        if v is None:
+            ph, k = self.epoch(st)
+            return Unknown(('cmp', op, repr(l), repr(r), f'@{ph}#{k}'))     # epoch-specific: clocks and shared state move on
+        return v
+
+    def decide(self, ex, cond, value, st, fr):
+        if isinstance(value, Sym) and (value.name in NONNULL or value.name.startswith('new:')): return True
+        return super().decide(ex, cond, value, st, fr)
+
+
 def evs(path_evs, kind=None, name=None, obj=None):
     return [e for e in path_evs if (kind is None or e.kind == kind) and (name is None or e.name == name or e.name.endswith('::' + name)) and (obj is None or e.obj == obj)]
 
@@ -62,7 +135,7 @@ def is_call(e, base, obj=None):
 class TPAnalysis:
     def __init__(self, facts, rep):
         self.facts = facts; self.rep = rep; self.res = {}
-        self.fn = {}
+        self.fn = {}; self.pred = None
         for name in ('start', 'clear', 'stop', 'update'):
             c = [f for f in facts.by_name.get(f'{TP}::{name}', []) if not f.d.get('instantiation')]
             if not c: rep.anchor_missing(f'{TP}::{name}', 'function not found'); continue
@@ -118,83 +191,104 @@ class TPAnalysis:
 
     # ---- worker loop: TP.1, TP.3 (take end), TP.7 -------------------------------------------------------------------------
     def worker(self):
+        """Every path of the worker body, with the shared state re-read in every *epoch*: an epoch ends where the worker
+        gives up m_queueMutex (a wait, the end of a guard's scope, unlock) or changes the queue.  The stop flag and the
+        emptiness of the queue are free per epoch; what a path learnt about them (branches taken, wait predicate true) is
+        kept in P.assumed.  The rules read: what is known in the epoch of each removal / each blocking wait."""
         f = self.fn.get('run')
         if f is None: return
         site = f.shortloc()
-        nrow = 0
-        self.pred = None
-        for running, qe in itertools.product([True, False], [True, False]):
-            dom = TPDomain(dict(running=running, queue_empty=qe))
-            res = run_paths(self.facts, f, dom, this_path=('this',))
-            row = f'(running={running}, queue empty={qe})'
-            nrow += 1
-            for P, E in res:
-                waits = evs(E, 'wait')
-                if not waits:
-                    if running and any(e.kind == 'return' for e in E) and not evs(E, 'run'):
-                        continue   # e.g. a loop-header test of the flag that is false cannot happen under this row
-                    if not evs(E, 'run') and not any(is_call(e, 'erase') or is_call(e, 'pop_front') for e in E): continue
-                    self.add('TP.7', False, f'row {row}: task taken without waiting on the condition', site, 'worker takes from the queue on a path that never waits'); continue
-                w = waits[0]
-                if self.pred is None and isinstance(w.val, Closure): self.pred = w.val
-                self.add('TP.7', 'm_queueMutex' in w.locks and w.obj == 'm_condition', f'row {row}: waits on m_condition with m_queueMutex held', w.site,
-                         '' if 'm_queueMutex' in w.locks else 'wait without the queue mutex')
-                iters = self._iterations(E)
-                for it in iters[:1]:
-                    takes = [e for e in it if is_call(e, 'erase', 'm_queue') or is_call(e, 'pop_front', 'm_queue') or is_call(e, 'pop_back', 'm_queue')]
-                    runs = evs(it, 'run'); dels = evs(it, 'delete')
-                    rets = [e for e in it if e.kind == 'return']
-                    if not running:
-                        ok = not takes and not runs and bool(rets)
-                        self.add('TP.7', ok, f'row {row}: a stopped pool makes the worker return before taking a task', w.site,
-                                 '' if ok else f'after the wait, with the stop flag set, the worker {"takes a task" if takes else "does not return"}: a task starts after stop() / stop() never returns')
+        dom = WorkerDomain()
+        res = run_paths(self.facts, f, dom, this_path=('this',))
+        self.n_worker_rows = len(res)
+        seen = set()
+
+        def once(rule, ok, inst, site_, why=''):
+            k = (rule, ok, inst, why)
+            if k in seen: return
+            seen.add(k); self.add(rule, ok, inst, site_, why)
+        n_take = n_wait = 0
+        for P, E in res:
+            A = P.assumed
+            for i, e in enumerate(E):
+                if e.kind == 'wait':
+                    n_wait += 1
+                    once('TP.7', 'm_queueMutex' in e.locks and e.obj == 'm_condition', 'the worker waits on m_condition with m_queueMutex held', e.site,
+                         '' if 'm_queueMutex' in e.locks else 'wait without the queue mutex')
+                    if isinstance(e.val, Closure):
+                        if self.pred is None: self.pred = e.val
                         continue
-                    if qe:
-                        ok = not takes and not runs
-                        self.add('TP.1', ok, f'row {row}: nothing is taken from an empty queue', w.site, '' if ok else 'takes from an empty queue')
-                        continue
-                    # running, queue non-empty: take -> run -> delete
-                    ok_take = len(takes) == 1 and 'm_queueMutex' in takes[0].locks
-                    self.add('TP.1', ok_take, f'row {row}: exactly one task is removed from the queue, under m_queueMutex', takes[0].site if takes else w.site,
-                             '' if ok_take else (f'{len(takes)} removal(s) per iteration' if len(takes) != 1 else 'the task is removed without the queue mutex') + ': a task is dropped, taken twice, or still queued while it runs')
-                    if not takes: continue
-                    t = takes[0]
-                    # which element: the erased position / popped end must be the front, and it is the element that was read
-                    front_ok = bool(is_call(t, 'pop_front') or (t.args and isinstance(t.args[0], Sym) and t.args[0].name.endswith('.begin')))
-                    self.add('TP.3', front_ok, f'row {row}: the task is taken from the front of the queue', t.site,
-                             '' if front_ok else f'removes {t.args[0] if t.args else "the back"}: tasks do not run in submission order with one worker')
-                    taken = 'm_queue.back' if is_call(t, 'pop_back') else 'm_queue.front'
-                    task_vals = [e.val for e in it if e.kind == 'write' and e.name == 'local' and isinstance(e.val, Sym) and e.val.name == 'm_queue.front']
-                    ok_run = len(runs) == 1 and isinstance(runs[0].val, Sym) and runs[0].val.name == taken and it.index(runs[0]) > it.index(t)
-                    why = ''
-                    if len(runs) != 1: why = f'{len(runs)} run() calls for one taken task'
-                    elif not (isinstance(runs[0].val, Sym) and runs[0].val.name == taken): why = f'run() is called on {runs[0].val}, not on the task that was removed from the queue ({taken})'
-                    elif it.index(runs[0]) < it.index(t): why = 'the task runs while it is still in the queue (another worker can take it too)'
-                    self.add('TP.1', ok_run, f'row {row}: the taken task is run exactly once, after it left the queue', runs[0].site if runs else t.site, why)
-                    ok_del = len(dels) == 1 and bool(runs) and it.index(dels[0]) > it.index(runs[0]) and isinstance(dels[0].val, Sym) and dels[0].val.name == taken
-                    why = ''
-                    if len(dels) != 1: why = f'{len(dels)} delete(s) of the task per iteration: ' + ('leaked' if not dels else 'destroyed twice')
-                    elif runs and it.index(dels[0]) < it.index(runs[0]): why = 'the task is destroyed before it runs'
-                    elif not (isinstance(dels[0].val, Sym) and dels[0].val.name == taken): why = f'deletes {dels[0].val}, not the task that ran'
-                    self.add('TP.1', ok_del, f'row {row}: the task is destroyed exactly once, after run() returned', dels[0].site if dels else t.site, why)
-        self.n_worker_rows = nrow
-        # wait predicate: !running => true
-        if self.pred is None or self.pred.fn is None:
-            self.add('TP.7', None, 'wait predicate', site, 'predicate form of wait not found'); return
-        for qe in (True, False):
-            dom = TPDomain(dict(running=False, queue_empty=qe))
-            ex = Exec(self.facts, dom)
-            # the closure captures by reference: bind `this`-relative fields through the same frame
-            ps = ex.run_closure(self.pred, this_path=('this',))
-            vals = set()
-            for P in ps:
-                vals.add(P.ret if isinstance(P.ret, bool) else repr(P.ret))
+                    # loop form: the worker blocks here.  It must have seen, in this critical section, the flag still set
+                    # and the queue empty (stop() and start() change both under the same mutex and notify afterwards)
+                    ph, k = e.tag
+                    r = A.get(f'running@{ph}'); q = A.get(f'qempty@{ph}#{k}')
+                    okr = r is True
+                    once('TP.7', okr, 'loop-form wait: the worker blocks only after it saw the run flag set in the same critical section', e.site,
+                         '' if okr else ('the worker blocks although the stop flag is set' if r is False else 'the worker blocks without having looked at the stop flag since it took the mutex') + ': an idle worker never leaves the wait and stop() blocks in join()')
+                    okq = q is True
+                    once('TP.7', okq, 'loop-form wait: the worker blocks only when it saw the queue empty in the same critical section', e.site,
+                         '' if okq else 'the worker blocks although a task is queued (or without looking): a queued task does not wake the worker')
+                if not (e.kind == 'call' and e.obj == 'm_queue' and e.name.split('::')[-1] in TAKES): continue
+                n_take += 1
+                ph, k = e.tag
+                r = A.get(f'running@{ph}'); q = A.get(f'qempty@{ph}#{k}')
+                others = [t for t in A if isinstance(t, tuple) and t and t[0] == 'cmp' and f'@{ph}#{k}' in repr(t)]
+                ok = 'm_queueMutex' in e.locks
+                once('TP.1', ok, 'a task is removed from the queue only under m_queueMutex', e.site, '' if ok else 'the task is removed without the queue mutex: a task is dropped, taken twice, or still queued while it runs')
+                if r is True: once('TP.7', True, 'a task is taken only in a critical section in which the run flag was seen set', e.site)
+                else:
+                    once('TP.7', False, 'a task is taken only in a critical section in which the run flag was seen set', e.site,
+                         ('after the wait, with the stop flag set, the worker takes a task' if r is False else 'the worker takes a task without having looked at the stop flag since it took the mutex') + ': a task starts after stop()')
+                if q is False: once('TP.1', True, 'a task is taken only when the queue was seen non-empty in the same critical section', e.site)
+                elif q is True or not others: once('TP.1', False, 'a task is taken only when the queue was seen non-empty in the same critical section', e.site, 'takes from an empty queue' if q is True else 'takes from the queue without having checked that it is not empty')
+                else: once('TP.1', None, 'a task is taken only when the queue was seen non-empty in the same critical section', e.site, f'emptiness test not recognised: {others[0]}')
+                # take -> run -> delete on the rest of this iteration (up to the next take or the end of the path)
+                j = next((x for x in range(i + 1, len(E)) if E[x].kind == 'call' and E[x].obj == 'm_queue' and E[x].name.split('::')[-1] in TAKES), len(E))
+                it = E[i:j]
+                if P.end == 'loop' and j == len(E) and not evs(it, 'delete') and not evs(it, 'run'): continue      # cut by the unroll bound before the iteration finished
+                b = e.name.split('::')[-1]
+                front_ok = bool(b == 'pop_front' or (b == 'erase' and e.args and isinstance(e.args[0], Sym) and e.args[0].name.endswith('.begin')))
+                back = b == 'pop_back'
+                if front_ok or back or b != 'erase':
+                    once('TP.3', front_ok, 'the task is taken from the front of the queue', e.site, '' if front_ok else f'removes {e.args[0] if e.args else "the back"}: tasks do not run in submission order with one worker')
+                else:
+                    once('TP.3', None if not (e.args and isinstance(e.args[0], Sym) and e.args[0].name.endswith('.end')) else False, 'the task is taken from the front of the queue', e.site, f'erase position {e.args[0] if e.args else "?"} not recognised')
+                taken = 'm_queue.back' if back else 'm_queue.front'
+                runs = evs(it, 'run'); dels = evs(it, 'delete')
+                esc = [x for x in it if x.kind == 'escape']
+                ok_run = len(runs) == 1 and isinstance(runs[0].val, Sym) and runs[0].val.name == taken
+                why = ''
+                if len(runs) != 1: why = f'{len(runs)} run() calls for one taken task'
+                elif not ok_run: why = f'run() is called on {runs[0].val}, not on the task that was removed from the queue ({taken})'
+                if P.end == 'loop' and j == len(E) and len(runs) == 0: continue
+                once('TP.1', ok_run, 'the taken task is run exactly once, after it left the queue', runs[0].site if runs else e.site, why)
+                if not runs: continue
+                if P.end == 'loop' and j == len(E) and not dels: continue
+                ok_del = len(dels) == 1 and it.index(dels[0]) > it.index(runs[0]) and isinstance(dels[0].val, Sym) and dels[0].val.name == taken
+                why = ''
+                if len(dels) != 1: why = f'{len(dels)} delete(s) of the task per iteration: ' + ('leaked' if not dels else 'destroyed twice')
+                elif it.index(dels[0]) < it.index(runs[0]): why = 'the task is destroyed before it runs'
+                elif not ok_del: why = f'deletes {dels[0].val}, not the task that ran'
+                once('TP.1', ok_del if not (esc and not ok_del) else None, 'the task is destroyed exactly once, after run() returned', dels[0].site if dels else e.site, why)
+            # a task must not run while it is still queued
+            for i, e in enumerate(E):
+                if e.kind == 'run' and isinstance(e.val, Sym) and e.val.name in ('m_queue.front', 'm_queue.back'):
+                    prev = [x for x in E[:i] if x.kind == 'call' and x.obj == 'm_queue' and x.name.split('::')[-1] in TAKES]
+                    okp = bool(prev)
+                    once('TP.1', okp, 'a task runs only after it left the queue', e.site, '' if okp else 'the task runs while it is still in the queue (another worker can take it too)')
+        if n_take == 0: self.add('TP.1', None, 'worker loop', site, 'no removal from m_queue found on any path of the worker body')
+        if n_wait == 0: self.add('TP.7', None, 'worker loop', site, 'the worker never waits on the condition variable')
+        # predicate form of the wait: true whenever the flag is cleared, true whenever a task is queued
+        if self.pred is None or self.pred.fn is None: return
+        for running, qe in ((False, True), (False, False), (True, False)):
+            dom = TPDomain(dict(running=running, queue_empty=qe)); ex = Exec(self.facts, dom)
+            vals = {P.ret if isinstance(P.ret, bool) else repr(P.ret) for P in ex.run_closure(self.pred, this_path=('this',))}
             ok = vals == {True}
-            self.add('TP.7', ok, f'wait predicate with the stop flag set (queue empty={qe}) = {sorted(map(str, vals))}', self.pred.fn.shortloc(),
-                     '' if ok else 'the predicate does not become true when the pool is stopped: an idle worker never leaves the wait and stop() blocks in join()')
-        dom = TPDomain(dict(running=True, queue_empty=False)); ex = Exec(self.facts, dom)
-        vals = {P.ret if isinstance(P.ret, bool) else repr(P.ret) for P in ex.run_closure(self.pred, this_path=('this',))}
-        self.add('TP.7', vals == {True}, f'wait predicate with a queued task = {sorted(map(str, vals))}', self.pred.fn.shortloc(), '' if vals == {True} else 'a queued task does not wake the worker')
+            if not running:
+                self.add('TP.7', ok, f'wait predicate with the stop flag set (queue empty={qe}) = {sorted(map(str, vals))}', self.pred.fn.shortloc(),
+                         '' if ok else 'the predicate does not become true when the pool is stopped: an idle worker never leaves the wait and stop() blocks in join()')
+            else:
+                self.add('TP.7', ok, f'wait predicate with a queued task = {sorted(map(str, vals))}', self.pred.fn.shortloc(), '' if ok else 'a queued task does not wake the worker')
 
     def _iterations(self, E):
         """split a worker path into loop iterations at each wait"""
